@@ -37,6 +37,13 @@ theorem C09_sites :
       (s.1, s.2.2.1, s.2.2.2) ∈ Gomjml.Expect.AttrSites.knownNonFull := by
   decide +kernel
 
+/-- css-class resolves by the same precedence (its mj-class values joined instead of overridden), and reaches an element from
+    mj-attributes — the tag default, else mj-all — when nothing nearer supplies it -/
+theorem C09_css_class (s : Gomjml.Resolve.Sources) :
+    Gomjml.Resolve.accCssClass s = Gomjml.Resolve.cssWinner s ∧
+    (s.own = "" → s.classes = [] → Gomjml.Resolve.accCssClass s = Gomjml.Resolve.globalValue s) :=
+  ⟨Gomjml.Resolve.accCssClass_eq_winner s, Gomjml.Resolve.accCssClass_global s⟩
+
 /-- **no read past the resolvers**: the only functions that look into a component's own attribute map are the four resolvers;
     everything else that touches the map is one of the three recorded width hand-downs.  A helper that reads `Attrs["x"]`
     directly sees the element's own attribute only — the defect behind 6bdfa39, where `GetCSSClass` did exactly that and
